@@ -2,6 +2,7 @@
 
 from __future__ import annotations
 
+import ast
 import itertools
 from fractions import Fraction
 from typing import Dict, List, Optional, Tuple
@@ -486,7 +487,11 @@ class C10:
             ("no option", dict(), lambda o: o == [tag_of(("call", tfk, (P["fallback"],), ()))], "[Tag(term=term_from_key(fallback), value=label)]"),
             ("key_mapping miss, no key", dict(km=False), lambda o: o == [tag_of(("call", tfk, (P["fallback"],), ()))], "[Tag(term=term_from_key(fallback), value=label)]"),
             ("tag_mapping miss falls through to key", dict(tgm=False, key=True), lambda o: o == [tag_of(("call", tfk, (P["key"],), ()))], "[Tag(term=term_from_key(key), value=label)]"),
-            ("explicit term beats tag_mapping", dict(term=True, tgm=True), lambda o: o == [tag_of(P["term"])], "[Tag(term=term, value=label)]"),
+            # the mappings come before the explicit term / key in the documented cascade (F22)
+            ("tag_mapping hit beats explicit term", dict(term=True, tgm=True), lambda o: all(any(x == ("sym", "tag_mapping[label]") for x in walk(t)) for t in o) and bool(o), "tag_mapping[label] (as a list) -- a mapping hit comes before the explicit term"),
+            ("key_mapping hit beats explicit term", dict(term=True, km=True), lambda o: o == [tag_of(("call", tfk, (("sym", "key_mapping[label]"),), ()))], "[Tag(term=term_from_key(key_mapping[label]), value=label)] -- a mapping hit comes before the explicit term"),
+            ("tag_mapping miss, explicit term", dict(term=True, tgm=False), lambda o: o == [tag_of(P["term"])], "[Tag(term=term, value=label)]"),
+            ("key_mapping miss, explicit term", dict(term=True, km=False), lambda o: o == [tag_of(P["term"])], "[Tag(term=term, value=label)]"),
             ("term_mapping hit and tag_mapping hit", dict(tm=True, tgm=True), lambda o: o == [tag_of(("sym", "term_mapping[label]"))], "[Tag(term=term_mapping[label], value=label)] (term_mapping is consulted before tag_mapping)"),
         ]
         for name, kw, pred, want in scen:
@@ -633,6 +638,27 @@ class C10:
             c = t[2][0]
             return c[3][0][1] == tags and not c[3][0][2] and is_lft(c[2], lambda a: a == ("elem", c[3][0][0]))
         checks.append(("join", outs, join_ok, "separator.join(label_from_tag(tag, **kwargs) for tag in tags)"))
+        # R10.7: an option of label_from_tag that reaches label_from_tags through **kwargs (value_only, label_fn, label_mapping ...) must
+        # not ALSO be passed explicitly next to the spread: Python then raises TypeError (multiple values) for every caller that
+        # sets the option -- and the property quantifies over every combination of the options
+        named2 = set(s2.params)
+        lft_params = set(s.params)
+        clash = None
+        for x in ast.walk(s2.node):
+            if isinstance(x, ast.Call) and s2.kwarg and any(k.arg is None and isinstance(k.value, ast.Name) and k.value.id == s2.kwarg for k in x.keywords):
+                tgt = ast.unparse(x.func).split(".")[-1]
+                if tgt == "label_from_tag":
+                    for k in x.keywords:
+                        if k.arg is not None and k.arg in lft_params and k.arg not in named2:
+                            clash = clash or (k.arg, x)
+        if clash:
+            ctx.bad("R10.7", file, "label_from_tags", f"label_from_tag(..., {clash[0]}=..., **{s2.kwarg})",
+                    f"label_from_tags fixes `{clash[0]}` explicitly in a call that also spreads its own **{s2.kwarg}: `{clash[0]}` is an option "
+                    f"of label_from_tag that callers pass through **{s2.kwarg}, so label_from_tags(tags, select_by_key=..., {clash[0]}=...) "
+                    f"raises TypeError (multiple values for keyword argument) instead of producing a label", clash[1].lineno,
+                    witness={"call": f"label_from_tags(tags, select_by_key='animal', {clash[0]}=False)", "observed": "TypeError"})
+        else:
+            ctx.ok("R10.7", site, "no option of label_from_tag is both fixed explicitly and spread from **kwargs")
         for name, outs, pred, wtxt in checks:
             if outs is None:
                 ctx.undec("R10.6", site, f"scenario `{name}` not resolved")
@@ -651,6 +677,7 @@ def run(ctx: Ctx):
     ctx.rule("R10.4", "skip iff ignore_errors else re-raise; append outside handler", 4)
     ctx.rule("R10.5", "one output per input in input order", 5)
     ctx.rule("R10.6", "label cascades return what the documented option order prescribes", 22)
+    ctx.rule("R10.7", "options forwarded through **kwargs are not also fixed explicitly (no duplicate-keyword TypeError)", 1)
     c = C10(ctx)
     c.check_import_units()
     c.check_export()
